@@ -22,6 +22,7 @@ var verifLoaderSnippets = []string{
 	"a = foo[null]\n",
 	"a = foo[\"k\"]\n",
 	"a = foo./* why */bar\n",
+	"a = foo /* c */ .bar /* x */ [0]\n",
 	"a = (\n foo.\n bar\n)\n",
 	"a = foo.*.bar.0\n",
 	"a = foo[*].bar\n",
